@@ -87,6 +87,19 @@ def configs(tier, seed):
         dict(name="chain-arrays", T=[w2, v1], M=[ma2], SL=slices[1:2] + slices[3:4] + slices[5:6], HU=[],
              bounds=B(1, 1 if th else 0, 2, 1, fewhosts=True, kinds=["inj", "imp"] if th else ["inj"]), modes=["remote"] if th else []),
     ]
+    # values 0, 0.0 and false as definitions and as later modifications; a unit stated for a unit-less node
+    zeros = dict(name="zeros",
+                 T=[a_f, a_i, tpl("n", "int", num(k + 1)), tpl("z", "bool", True), tpl("g.x", "float", num(0), u1)],
+                 M=[lit("float", num(0), u2), lit("float", num(0)), lit("int", num(0)), m_i, m_b],
+                 SL=[], HU=[u2], bounds=B(2, 2 if th else 1, 1, 1, fewhosts=True), modes=["base", "remote"] if th else [])
+    # a custom unit of the file ($unit hm = 100 m): referenced node in [hm] and host in an ordinary unit, and vice versa
+    custom = dict(name="custom-unit",
+                  T=[tpl("a", "float", f, "[hm]"), tpl("a", "float", f, "m"), tpl("g.x", "int", num(k), "[hm]"),
+                     tpl("g.x", "float", num(k), "km")],
+                  M=[lit("float", num(2), "[hm]"), lit("float", num(4), "m"), lit("float", num(5))],
+                  SL=[], HU=["[hm]", "m"], bounds=B(2, 1, 1, 1 if th else 0, fewhosts=True, custom=True),
+                  modes=["base", "remote"] if th else ["remote"])
+    cfgs += [zeros, custom]
     return cfgs
 
 
@@ -120,6 +133,7 @@ MCModes == {C.tla_str(set(modes))}
 MCInjHosts == <<<<"b">>, <<"c">>, <<"d">>>>
 MCImpHosts == {seq(imphosts)}
 MCDevs == {C.tla_str(set(devs))}
+MCCustomUnit == {C.tla_str(bool(bounds.get('custom')))}
 MCRefKinds == {C.tla_str(set(bounds.get('kinds', ['inj', 'imp'])))}
 ====
 """, f"""CONSTANTS
@@ -131,6 +145,7 @@ MCRefKinds == {C.tla_str(set(bounds.get('kinds', ['inj', 'imp'])))}
   InjHosts <- MCInjHosts
   ImpHosts <- MCImpHosts
   Devs <- MCDevs
+  CustomUnit <- MCCustomUnit
   RefKinds <- MCRefKinds
   MaxDef = {bounds['def']}
   MaxMod = {bounds['mod']}
